@@ -18,7 +18,7 @@ class C04(Property):
         "record_lines_accepted_editor / _difficulty / _general / _events, record_blocks_accepted_and_recovered":
             "law-dependent: proved for every number codec satisfying CodecLaws (+ IntPrintLaw for AudioLeadIn), shown satisfiable by Lemmas/ToyCodec.lean; CodecLaws is now also a theorem "
             "for the model's IEEE codec (C02: parseBits_printBits_f64/_f32, printBits_clean, codecLaws_float(32) under the bit-cast hypothesis FloatBitsLaw about Lean's opaque Float); IntPrintLaw "
-            "for the IEEE instance is not proved, nor that Rust's Display/FromStr equal the model codec (tested by lib/codecgen.py). record_lines_accepted_metadata / _colours, version_line_parses, encode_shape, lines_dispatched need no law",
+            "likewise (C02: printBits_intBits_f64, intPrintLaw_float under FloatOfIntLaw). Not proved: that Rust's Display/FromStr equal the model codec (tested by lib/codecgen.py). record_lines_accepted_metadata / _colours, version_line_parses, encode_shape, lines_dispatched need no law",
         "record_lines_accepted_*": "stated for section records that are representable (Rt*.Rep*: self-trimmed single-line texts, file names without `//`, backslash (and, for the background, "
             "comma / outer quotes), integers within ±(2^31−1), floats representable by the codec within the parse limit and inside the field's clamp, colour components ≤ 255, custom colour "
             "names without `:` / `//` / leading `Combo`, pairwise distinct). That every *decoded* map satisfies these (the `Decoded` invariant of DESIGN 5.4) is not proved here",
@@ -43,7 +43,7 @@ class C04(Property):
         "Lean 4.33.0 kernel; axioms ⊆ {propext, Classical.choice, Quot.sound} per #print axioms",
         "hand-written Model/Encode.lean (+ decode model) tied to /repo by the `enc` differential: identical text on every case of this run",
         "Rust Display for f32/f64/i32/u8 (model codec validated against Rust by lib/codecgen.py on >10^6 values; the model codec itself is proved to satisfy CodecLaws in Props/C02Codec.lean "
-        "up to the bit-cast hypothesis FloatBitsLaw)",
+        "up to the runtime hypotheses FloatBitsLaw / FloatOfIntLaw)",
     ]
     assumptions = ["maps are obtained by decoding (the property's domain); edited maps are C03's domain"]
     nontrivial_rule = "decoded maps from the C01/C02 generators incl. non-chronological and hostile inputs; non-trivial = encoding has more than 40 lines"
